@@ -305,6 +305,60 @@ def run(ctx):
     ctx.check("R7", P.cls("pkgcore.ebuild.restricts", "_VersionMatch"), n7 >= 1, f"combined-field-returns:{n7}", f"{n7} match returns of classes whose equality normalises a field combination inspected")
     ctx.floor("R7", 2)
 
+    # ---- R8: attributes served by a proxy object are identified by what equality compares ------------------------------
+    # (atom serves fullver / version / revision from self._cpv; the =* restriction matches on that *text*)
+    from ..core import effects
+    eng = effects.engine(P)
+    n8 = 0
+    for K in sorted(P.all_classes(), key=lambda c: c.fq):
+        ga = K.assigns.get("__getattr__")
+        if not (isinstance(ga, ast.Call) and (dotted(ga.func) or "").endswith("GetAttrProxy") and ga.args and isinstance(A.const(ga.args[0]), str)):
+            continue
+        eq = E.eq_spec(K)
+        if eq["kind"] not in ("fields", "custom"):
+            continue
+        proxy = A.const(ga.args[0])
+        eqf = expand_properties(P, E, K, eq["fields"])
+        init = K.methods.get("__init__")
+        if init is None:
+            continue
+        fx = eng.fx(init)
+        stores = [(t, v, st) for t, v, st in A.assignments(init.node) if A.self_attr(t, fx.selfname) == proxy]
+        for c in A.calls(init.node):
+            if (dotted(c.func) or "") in ("sf", "object.__setattr__") and len(c.args) == 3 and A.const(c.args[1]) == proxy:
+                stores.append((None, c.args[2], c))
+        if not stores:
+            continue
+        n8 += 1
+        if proxy in eqf:
+            # the proxy object itself is compared: fine only if *its* equality is as fine as the text it serves
+            T = None
+            for _, v, _st in stores:
+                if isinstance(v, ast.Call):
+                    r = P.resolve_name(K.module, dotted(v.func) or "")
+                    if isinstance(r, ClassInfo):
+                        T = r
+            coarse = None
+            if T is not None:
+                teq = E.eq_spec(T)
+                via = teq.get("via")
+                if via is not None and any((dotted(c.func) or "").split(".")[-1] in ("ver_cmp", "cmp") or A.call_attr(c) in ("lower", "casefold") for c in A.calls(via.node)):
+                    coarse = f"{T.name}.__eq__ decides through ver_cmp (1.0 == 1.00, -r1 == -r01)"
+            ctx.check("R8", K, coarse is None, f"proxy-compared-coarsely:{proxy}",
+                      f"{K.name}: the proxy `{proxy}` is compared by an equality as fine as the attributes it serves",
+                      f"{K.name} compares its proxy `{proxy}` itself, and {coarse}; the attributes it serves (fullver, revision ...) are matched as text "
+                      f"by the =* restriction: equal, equally hashed atoms match different packages", node=K.node)
+        else:
+            for _, v, st in stores:
+                srcs = {t_[5:] for t_ in fx.sources(v, st) if t_.startswith("self:")}
+                missing = sorted(x for x in srcs if x not in eqf and not class_constant(P, K, x))
+                ctx.check("R8", K, not missing, f"proxy-inputs-uncompared:{','.join(missing)}",
+                          f"{K.name}: `{proxy}` is built from {sorted(srcs)}, all compared by equality",
+                          f"{K.name}: the proxy `{proxy}` (serving the attributes the restrictions read) is built from {missing}, which equality "
+                          f"({sorted(eqf)}) does not compare", node=st)
+    ctx.require(n8 >= 1, "no class with a GetAttrProxy and structural equality found (atom expected)")
+    ctx.floor("R8", 1)
+
 
 def _return_reads(fn, ret):
     """self attributes a return's value depends on: in the expression, in the definitions of the names it uses, and in
